@@ -2,3 +2,4 @@
 pub mod align;
 pub mod edit;
 pub mod hmm;
+pub mod text_index;
